@@ -15,7 +15,7 @@ def run(tier, seed, replay=None):
         raise vlib.Infra("model of the pinned ReadIngestRequest is no longer refuted")
     shutil.rmtree(m.workdir, ignore_errors=True)
     rep = vlib.run_harness(binary, ["c18", "-cases", os.path.join(r.workdir, "c18_cases.ndjson"), "-flip-every", "5" if tier == "quick" else "1"], timeout=7000)
-    if rep.get("extra", {}).get("read_error") or rep["inconclusive"]:
+    if rep.get("extra", {}).get("read_error") or (rep["inconclusive"] and not rep["divergences"]):
         raise vlib.Infra("c18 harness: %s" % rep.get("extra"))
     ck.add_report(rep)
     ck.cov["rule"] = ("one case per TLC state x 4 key types, built with the real constructors and envelope-field substitution; read with the real readers; "
